@@ -98,7 +98,13 @@ def life(spec):
         # the pool breaks while large call items are still queued behind a full pipe
         ex = ProcessPoolExecutor(max_workers=1)
         ex.submit(T.ident, 1).result()
-        fs = [ex.submit(T.die, 3)] + [ex.submit(T.ident, b"x" * 300000) for _ in range(spec["n"] + 2)]
+        fs = [ex.submit(T.die, 3)]
+        for _ in range(spec["n"] + 2):
+            try:
+                fs.append(ex.submit(T.ident, b"x" * 300000))
+            except BrokenProcessPool:
+                break          # the pool broke while we were still submitting
+        f = None
         for f in fs:
             try:
                 f.result(timeout=60)
@@ -106,6 +112,28 @@ def life(spec):
                 pass
         ex.shutdown(wait=True)
         del ex, fs, f
+    elif kind == "plain_broken_gc":
+        ex = ProcessPoolExecutor(max_workers=w)
+        ex.submit(T.ident, 1).result()
+        f = ex.submit(T.die, 3)
+        try:
+            f.result(timeout=60)
+        except BrokenProcessPool:
+            pass
+        if spec["n"] % 2:
+            ex.shutdown(wait=False)
+        del ex, f
+        gc.collect()
+    elif kind == "plain_pickle_error_gc":
+        ex = ProcessPoolExecutor(max_workers=w)
+        ex.submit(T.ident, 1).result()
+        f = ex.submit(T.ident, T.Unpicklable())
+        try:
+            f.result(timeout=60)
+        except Exception:
+            pass
+        del ex, f
+        gc.collect()
     elif kind == "plain_gc":
         ex = ProcessPoolExecutor(max_workers=w)
         ex.submit(T.ident, 1).result()
